@@ -8,6 +8,7 @@ import RbpfModel.Model.Builder
 import RbpfModel.Model.DriveExec
 import RbpfModel.Model.DriveText
 import RbpfModel.Model.DriveHelpers
+import RbpfModel.Model.DriveApi
 open Rbpf Rbpf.Hex
 
 def insnStr (i : Insn) : String :=
@@ -82,6 +83,7 @@ def handle (toks : List String) : String :=
   | ["asm", t, _want] => Drive.handleAsm t
   | ["dis", p] => Drive.handleDis p
   | ["rt", p] => Drive.handleRt p
+  | "api" :: rest => Drive.handleApi rest
   | "helper" :: rest => Drive.handleHelper rest
   | ["verify", prog] => Drive.handleVerify prog
   | "exec" :: rest => Drive.handleExec rest
